@@ -113,6 +113,7 @@ func fxWitness(t NT, op, rule string, a, b, c *big.Int) (w, w2 *big.Int) {
 		}
 	case "muldiv":
 		w = roundDiv(new(big.Int).Mul(a, b), c, rule)
+		w2 = roundDiv(new(big.Int).Mul(a, b), c, "")
 	}
 	return
 }
